@@ -24,6 +24,7 @@ type SpecExpr struct {
 	Subs map[string]*SpecExpr
 	Src  string
 	Pats []*SpecExpr // explicit triggers of a quantifier
+	Native func(env *SpecEnv) Term // generator-made clause (automatic loop invariants)
 }
 
 func topLevelIndex(s, tok string) int {
@@ -303,6 +304,8 @@ func (env *SpecEnv) term(se *SpecExpr) Term {
 
 func (env *SpecEnv) eval(se *SpecExpr) SV {
 	switch se.Kind {
+	case "native":
+		return SV{V: se.Native(env), T: types.Typ[types.Bool]}
 	case "imp":
 		a, b := env.term(se.A), env.term(se.B)
 		return SV{V: Implies(a, b), T: types.Typ[types.Bool]}
